@@ -176,6 +176,21 @@ async function op_write(req) {
     return res;
 }
 
+async function op_query_csv(req) {
+    // rbql-js file front-end: {query, input, output, with_headers}
+    const fs = require('fs');
+    let warnings = [];
+    let res = {};
+    try {
+        await rbql_csv.query_csv(req.query, req.input, ',', 'quoted', req.output, ',', 'quoted', 'utf-8', warnings, !!req.with_headers, null, '', req.bulk ? {bulk_read: true} : null);
+        res.warnings = warnings;
+        res.text = fs.readFileSync(req.output, 'utf-8');
+    } catch (e) {
+        res.error = err_info(e);
+    }
+    return res;
+}
+
 function project(v) {
     if (v === null || v === undefined) return ['n'];
     if (typeof v === 'string') return ['s', Array.from(v).map(c => c.codePointAt(0))];
@@ -230,7 +245,7 @@ function op_like(req) {
     return {res: out};
 }
 
-const OPS = {split: op_split, read: op_read, read_file: op_read_file, write: op_write, query_table: op_query_table, like: op_like,
+const OPS = {split: op_split, read: op_read, read_file: op_read_file, write: op_write, query_table: op_query_table, like: op_like, query_csv: op_query_csv,
              ping: async () => ({pong: true, version: rbql.version})};
 
 async function main() {
